@@ -7,9 +7,9 @@ sys.path.insert(0, "/verif/tools")
 import regress
 from multiprocessing import Pool
 
-PROP = {"54726ef": "C14", "a6a6e1a": "C13", "18a481f": "C12", "73e822d": "C09", "5c14780": "C15", "a863ca6+af183bb": "C08", "b50b1f9": "C11",
+PROP = {"54726ef": "C14", "a6a6e1a": "C13", "18a481f": "C12", "73e822d": "C09", "5c14780": "C15", "a863ca6+af183bb+bc7ee1f": "C08", "b50b1f9": "C11",
         "e5bb7bb": "C11", "601d30f": "C06", "3dbd095": "C11", "af183bb": "C11", "eb15c9c": "C13", "98e02d8": "C13", "04d943e": "C13",
-        "3aaea4a": "C03", "c1d1872": "C07", "44b8863": "C11", "9d6f31b": "C13", "ec6e95c+ce824c1": "C11", "ce824c1": "C10", "fff5e49": "C13", "593aae7": "C11", "2dcd746": "C09", "a433e25": "C11", "3f13e4c": "C13", "3d0e0f6": "C11", "ca24969": "C03", "15121e4": "C16"}
+        "3aaea4a": "C03", "c1d1872": "C07", "44b8863": "C11", "9d6f31b": "C13", "ec6e95c+ce824c1": "C11", "ce824c1": "C10", "fff5e49": "C13", "593aae7": "C11", "2dcd746": "C09", "a433e25": "C11", "3f13e4c": "C13", "3d0e0f6": "C11", "ca24969": "C03", "15121e4": "C16", "bc7ee1f": "C08"}
 
 if __name__ == "__main__":
     cases = [("seed", c, "/verif/reverts/%s.diff" % c, [p]) for c, p in sorted(PROP.items()) if os.path.exists("/verif/reverts/%s.diff" % c)]
